@@ -56,6 +56,12 @@ func VerifyFunction(P *Program, S *Specs, key string) (res *FuncResult) {
 	x.closures = map[*Term]*closure{}
 	x.usedFuncs = map[string]bool{}
 	x.boxed = map[*Term]Value{}
+	x.reveal = map[string]bool{}
+	if x.C != nil {
+		for _, r := range x.C.Reveal {
+			x.reveal[r] = true
+		}
+	}
 	defer func() {
 		if r := recover(); r != nil {
 			if ee, ok := r.(*EngineError); ok {
